@@ -159,3 +159,12 @@ package locking
 //@ iface (LockCacher).Locks
 //@   modifies fresh, ghost lastcachelocks
 //@   ensures result == lastcachelocks()
+
+// C16 over the SSH transport: an answer with an error status (a conflict
+// included) that carries a text line always yields that line as the message,
+// which is what makes LockFile treat it as a refusal - lock data sent along with
+// a conflict never turns the answer into a grant.
+//@ func (*sshLockClient).parseLockResponse
+//@   props C16
+//@   ensures result2 == nil && status > 299 && len(lines) > 0 ==> result1 == lines[0]
+//@   ensures result2 == nil && status >= 200 && status <= 299 ==> result0 != nil
